@@ -464,7 +464,8 @@ def mutations(root, sname, top_level='all', thorough=False, skip_inside=()):
             # duplicate (plain, and with the non-critical flag on the copy)
             c = k.copy()
             kids.insert(i + 1, c)
-            yield mk('dup')
+            if not c.nc:                      # (an element that carries the flag itself, e.g. metadata padding: its copy is a flagged duplicate)
+                yield mk('dup')
             c.nc = True
             yield mk('dup-nc')
             if thorough:
@@ -474,8 +475,9 @@ def mutations(root, sname, top_level='all', thorough=False, skip_inside=()):
                 del kids[i + 1]
                 kids.append(c)
                 yield mk('dup-nc', 'copy-at-end')
-                c.nc = c.fw = False
-                yield mk('dup', 'copy-at-end')
+                c.nc, c.fw = k.nc, k.fw
+                if not c.nc:
+                    yield mk('dup', 'copy-at-end')
                 kids.pop()
             else:
                 del kids[i + 1]
